@@ -503,6 +503,11 @@ _NS_CASES = {
     'foo="http://example.org/foo"': [("foo", "http://example.org/foo")],
     'subentities="http://example.org/sub"': [("subentities", "http://example.org/sub")],
     'x="http://example.org/x" geo_entities="http://example.org/geo"': [("x", "http://example.org/x"), ("geo_entities", "http://example.org/geo")],
+    # a second prefix for a namespace that already has one (a standard one, or another of the author's) is still a
+    # prefix the author uses on attribute columns: it must be declared
+    'rosa="http://openrosa.org/xforms"': [("rosa", "http://openrosa.org/xforms")],
+    'esri="http://example.org/gis" arcgis="http://example.org/gis"': [("esri", "http://example.org/gis"), ("arcgis", "http://example.org/gis")],
+    "q='http://example.org/q'": [("q", "http://example.org/q")],
 }
 
 
